@@ -95,10 +95,11 @@ func tuneVRF(prop string, k *ChainKnobs) *core.Rand {
 }
 
 // genVRFOps draws the proof submissions of one height.
-func genVRFOps(vr *core.Rand) []TxOp {
+func genVRFOps(vr *core.Rand, quiet bool) []TxOp {
 	var ops []TxOp
 	for slot := 0; slot < 14; slot++ {
-		if !vr.Chance(2, 5) {
+		// (in a quiet epoch few nodes prove: the next alpha is weak, or too few candidates proved)
+		if (quiet && !vr.Chance(1, 10)) || (!quiet && !vr.Chance(2, 5)) {
 			continue
 		}
 		op := TxOp{Kind: "vrf.prove", Arg: slot}
